@@ -13,9 +13,9 @@ from harness import lex_gen as lg
 
 LEVEL = "proof"
 META = {
-    "technique": "Coq proof (token level, on top of the C10 tokenizer model) that the preservation criterion fmt_equiv is an equivalence with a verified boolean checker, and that a Gallina mirror of format_emb.sanity_check_format_result decides exactly that criterion; translation validation of every formatter output produced in the run: format_emb.format_emboss_parse_tree on corpus and generated parseable texts for indent 1..8, output tokenized by the MODEL and compared with the verified criterion; idempotence, no-exception, re-parse and agreement of the built-in self check are observed directly",
-    "level_text": "PARTIAL (proof of the criterion and of the self-check mirror + translation validation of each produced output). Machine-checked (Coq 8.16, no axioms): fmt_equiv (same symbols and same texts modulo surrounding white space after collapsing newline runs, leading ones entirely) is reflexive, symmetric and transitive; fmt_equivb decides it; equivalent token lists feed the parser the same symbol sequence; the model of sanity_check_format_result (as of fix 7fc177c) returns no error exactly when fmt_equiv holds (sanity_ok_iff), and its two reports mean what they say (sanity_bug_position: first non-equivalent position; sanity_count_differs: one stream equivalent to a strict prefix of the other); a line re-tokenises to a given token list iff the local longest-first conditions hold (retokenize_line_partial). PARTIAL: the ~50 per-production handlers and _columnize are not modelled, so 'for all parseable inputs' is not proved; each run certifies the outputs it produced (translation validation by the verified criterion over the C10 model tokenizer).",
-    "level_note": "Trusted: Coq kernel + vm_compute; extraction (ExtrOcamlBasic only) + 40-line OCaml driver, cross-checked on a sample inside Coq; harness/lex_tables.py; the Python parser (parser.parse_module) as the oracle for 'parseable'. Not modelled: format_emb's handlers, _columnize, blank-line insertion, comment re-indentation (growth path in DESIGN.md C11); IR equality after formatting follows from token equivalence only through the parser, which is the subject of C08/C09, not of this check.",
+    "technique": "Coq proof at two levels. (1) Token level (on top of the C10 tokenizer model): the preservation criterion fmt_equiv is an equivalence with a verified boolean checker, and a Gallina mirror of format_emb.sanity_check_format_result decides exactly that criterion. (2) Handler level: an executable Gallina model of format_emb.py (Lex/FmtModel.v: strings with provenance, _Row/_Block values, hand-written shared combinators _intersperse/_should_add_blank_lines/_columnize/_indent_*/_add_blank_rows_on_dedent/_render_rows_to_text/comment stripping, and a 28-construct handler DSL); the table production -> handler term is REGENERATED from format_emb.py on every run by a fail-closed Python ast translator (harness/fmt_x.py); theorems for ALL parse trees by induction over the tree with one lemma per combinator, instantiated on the regenerated table by vm_compute over the production list. Correspondence: model output = format_emboss_parse_tree character for character on every (text, indent 1..8) pair of the run (extracted OCaml, sampled against vm_compute). Translation validation of every produced output as before: output tokenized by the MODEL and compared with the verified criterion; idempotence, no-exception, re-parse and agreement of the built-in self check observed directly",
+    "level_text": "PARTIAL (proof of the criterion and of the self-check mirror + translation validation of each produced output). Machine-checked (Coq 8.16, no axioms): fmt_equiv (same symbols and same texts modulo surrounding white space after collapsing newline runs, leading ones entirely) is reflexive, symmetric and transitive; fmt_equivb decides it; equivalent token lists feed the parser the same symbol sequence; the model of sanity_check_format_result (as of fix 7fc177c) returns no error exactly when fmt_equiv holds (sanity_ok_iff), and its two reports mean what they say (sanity_bug_position: first non-equivalent position; sanity_count_differs: one stream equivalent to a strict prefix of the other); a line re-tokenises to a given token list iff the local longest-first conditions hold (retokenize_line_partial). Handler level, for ALL parse trees (no size bound): format_preserves_tokens / format_text_preserves_tokens / format_preserves_leaves -- whenever the formatter does not raise, its result (rows, and the rendered text as a concatenation of pieces) carries exactly the (symbol, stripped text) sequence of the tree's leaves other than Indent/Dedent/newline and white-space-only tokens, given the static check table_toks_ok, which holds for the regenerated table (inst_table_toks_ok); eval_preserves_tokens per DSL construct and combinator. PARTIAL: never-fails is proved only for the string fragment (format_total_strings_partial: 181 of 224 productions -- expressions, types, names, attributes); idempotence only for the passes (indent_blanks_idempotent_partial, add_blank_rows_idempotent_partial, rstrip_idempotent_partial); that the tokenizer splits the rendered text at the piece boundaries and produces the same Indent/Dedent tokens is still validated per output (retokenize_line_partial + translation validation), not proved for all outputs.",
+    "level_note": "Trusted: Coq kernel + vm_compute; extraction (ExtrOcamlBasic only) + 40-line OCaml driver, cross-checked on a sample inside Coq; harness/lex_tables.py; the Python parser (parser.parse_module) as the oracle for 'parseable'. harness/fmt_x.py (translator format_emb.py -> handler DSL; its output is tied by the character-for-character correspondence). Not modelled: Config.show_line_types=True; not proved: totality of the row/block handlers, idempotence of the whole formatter, re-tokenization of the rendered text for all outputs; IR equality after formatting follows from token equivalence only through the parser, which is the subject of C08/C09, not of this check.",
 }
 
 GEN_TABLE = "LexTable_C11"
@@ -100,6 +100,141 @@ def run_extracted(exe, pairs, nproc=8):
             lines = (lines + ["MODEL-DRIVER-FAILED;rc=%s %s" % (rc, e[-200:].replace("\n", " "))] * n)[:n]
         for j, l in enumerate(lines):
             res[k + j * nproc] = l
+    return res
+
+
+# ---------------------------------------------------------------------------
+# the handler-level model (Lex/FmtModel.v + the table regenerated by harness/fmt_x.py), extracted
+# ---------------------------------------------------------------------------
+
+GEN_FMT = "FmtTable_C11"
+
+FMT_DRIVER_ML = r"""(* C11 handler-model driver: one case per input line = indent width, then the parse tree in prefix order
+   (leaf: 0 <len> sym.. <len> text..; node: 1 <production index> <number of children> children..), all as integers.
+   Prints `ok <code points>` (the model of format_emboss_parse_tree) or `fail`. *)
+open Fmthandlers
+let rec pos_of_int i = if i = 1 then XH else if i land 1 = 1 then XI (pos_of_int (i lsr 1)) else XO (pos_of_int (i lsr 1))
+let n_of_int i = if i = 0 then N0 else Npos (pos_of_int i)
+let rec int_of_pos = function XH -> 1 | XO p -> 2 * int_of_pos p | XI p -> 2 * int_of_pos p + 1
+let int_of_n = function N0 -> 0 | Npos p -> int_of_pos p
+let rec nat_of_int i = if i = 0 then O else S (nat_of_int (i - 1))
+let toks = ref [||]
+let pos = ref 0
+let next () = let v = (!toks).(!pos) in incr pos; v
+let read_str () =
+  let n = next () in
+  let rec go i = if i = 0 then [] else let c = n_of_int (next ()) in c :: go (i - 1) in
+  go n
+let rec read_tree () =
+  let tag = next () in
+  if tag = 0 then (let sy = read_str () in let tx = read_str () in Leaf (sy, tx))
+  else begin
+    let p = next () in
+    let n = next () in
+    let rec kids i = if i = 0 then [] else let c = read_tree () in c :: kids (i - 1) in
+    let ks = kids n in
+    Node (nat_of_int p, ks)
+  end
+let () =
+  try
+    while true do
+      let line = input_line stdin in
+      toks := Array.of_list (List.map int_of_string (List.filter (fun s -> s <> "") (String.split_on_char ' ' line)));
+      pos := 0;
+      let iw = next () in
+      let t = read_tree () in
+      (match run_format (nat_of_int iw) t with
+       | Some s -> print_string "ok"; List.iter (fun c -> print_char ' '; print_string (string_of_int (int_of_n c))) s; print_newline ()
+       | None -> print_endline "fail")
+    done
+  with End_of_file -> ()
+"""
+
+
+def build_fmt_model(d, flags=None):
+    """extract format_text on the regenerated handler table and build the driver in directory d -> exe or (None, log)"""
+    shutil.rmtree(d, ignore_errors=True)
+    os.makedirs(d)
+    with open(os.path.join(d, "FmtHExtr.v"), "w") as f:
+        f.write("Require Import EmbossV.Lex.FmtModel EmbossVGen.%s.\n" % GEN_FMT)
+        f.write("Require Extraction. Require Import ExtrOcamlBasic.\n")
+        f.write("Definition run_format (iw : nat) (t : tree) : option (list BinNums.N) := format_text fmt_ws iw fmt_table t.\n")
+        f.write('Extraction "fmthandlers.ml" run_format.\n')
+    rc, out = fw.sh(["coqc"] + (flags or fw.COQ_FLAGS) + [os.path.join(d, "FmtHExtr.v")], timeout=600, cwd=d)
+    if rc != 0:
+        return None, out
+    open(os.path.join(d, "hdriver.ml"), "w").write(FMT_DRIVER_ML)
+    rc, out = fw.sh(["ocamlfind", "ocamlopt", "-O3", "fmthandlers.mli", "fmthandlers.ml", "hdriver.ml", "-o", "fmthdrv"], cwd=d, timeout=600)
+    if rc != 0:
+        rc, out = fw.sh(["ocamlfind", "ocamlopt", "fmthandlers.mli", "fmthandlers.ml", "hdriver.ml", "-o", "fmthdrv"], cwd=d, timeout=600)
+    if rc != 0:
+        return None, out
+    return os.path.join(d, "fmthdrv"), ""
+
+
+def encode_tree(tab, tree):
+    """prefix encoding of a parse tree for the driver; iterative (trees are deep).  Raises KeyError when a node's
+    production has no registered handler (format_emboss_parse_tree would raise KeyError too)."""
+    from compiler.util import parser_types
+    out = []
+    stack = [tree]
+    index = tab["index"]
+    while stack:
+        n = stack.pop()
+        if isinstance(n, parser_types.Token):
+            out.append("0 %d %s %d %s" % (len(n.symbol), " ".join(str(ord(c)) for c in n.symbol),
+                                          len(n.text), " ".join(str(ord(c)) for c in n.text)))
+        else:
+            out.append("1 %d %d" % (index[n.production], len(n.children)))
+            stack.extend(reversed(n.children))
+    return " ".join(out)
+
+
+def coq_tree(tab, tree):
+    """the same tree as a Coq term of type FmtModel.tree (small trees only: recursive)"""
+    from compiler.util import parser_types
+    if isinstance(tree, parser_types.Token):
+        return "(Leaf %s %s)" % (lt.coq_str(tree.symbol), lt.coq_str(tree.text))
+    return "(Node %d [%s])" % (tab["index"][tree.production], ";".join(coq_tree(tab, c) for c in tree.children))
+
+
+def run_fmt_model(exe, tab, pairs, nproc=8):
+    """pairs = [(tree, indent width)] -> list of model outputs (str), None for a model failure, or 'DRIVER...'"""
+    chunks = [pairs[i::nproc] for i in range(nproc)]
+    outs = [None] * nproc
+
+    def work(k):
+        data = "".join("%d %s\n" % (iw, encode_tree(tab, tree)) for tree, iw in chunks[k])
+        p = subprocess.Popen("ulimit -s unlimited 2>/dev/null; exec '%s'" % exe, shell=True, stdin=subprocess.PIPE,
+                             stdout=subprocess.PIPE, stderr=subprocess.PIPE, text=True)
+        try:
+            o, e = p.communicate(data, timeout=1500)
+            outs[k] = (p.returncode, o, e)
+        except subprocess.TimeoutExpired:
+            p.kill()
+            outs[k] = (124, "", "timeout")
+    th = [threading.Thread(target=work, args=(k,)) for k in range(nproc)]
+    for x in th:
+        x.start()
+    for x in th:
+        x.join()
+    res = [None] * len(pairs)
+    for k in range(nproc):
+        rc, o, e = outs[k]
+        lines = o.split("\n")
+        if lines and lines[-1] == "":
+            lines.pop()
+        n = len(chunks[k])
+        if rc != 0 or len(lines) != n:
+            lines = (lines + ["DRIVER-FAILED rc=%s %s" % (rc, e[-200:].replace("\n", " "))] * n)[:n]
+        for j, l in enumerate(lines):
+            if l == "fail":
+                v = None
+            elif l.startswith("ok"):
+                v = "".join(chr(int(x)) for x in l[2:].split())
+            else:
+                v = l
+            res[k + j * nproc] = v
     return res
 
 
@@ -496,6 +631,167 @@ class Mut:
         return text
 
 
+INST_H = "FmtHInstance_C11"
+
+
+def handler_model_part(ctx, impl, cases):
+    """The handler-level model: regenerate the handler table from format_emb.py, check the instance theorems on
+    it, and compare the model's output with format_emboss_parse_tree character for character on every
+    (text, indent) pair of this run."""
+    from harness import fmt_x
+    try:
+        tab = fmt_x.load(fw.REPO)
+    except fmt_x.Unsupported as ex:
+        ctx.obligation("handler table regenerated from format_emb.py (harness/fmt_x.py)", False)
+        ctx.violation("fmt-handler-translator", "format_emb.py contains a handler shape the translator does not understand: %s" % ex,
+                      dict(kind="tie", translator="harness/fmt_x.py", error=str(ex),
+                           theorems=["format_preserves_tokens", "format_total"]), found_input=False)
+        return
+    ctx.extra["handler_table"] = {"productions": len(tab["productions"]), "handler_functions": len(tab["functions"])}
+    fv = os.path.join(fw.GEN, GEN_FMT + ".v")
+    fmt_x.write_table_v(fv, tab, GEN_TABLE)
+    rc, out = fw.coqc(fv, timeout=600)
+    ctx.obligation("handler table regenerated from format_emb.py (%d productions, %d handler functions) and compiled"
+                   % (len(tab["productions"]), len(tab["functions"])), rc == 0)
+    if rc != 0:
+        ctx.violation("fmt-handler-translator", "generated handler table does not compile", dict(kind="tie", log=out[-3000:]), found_input=False)
+        return
+    # ---- instance theorems on the regenerated table ----
+    inst = os.path.join(fw.GEN, INST_H + ".v")
+    ex_tree = real_expression_subtree(impl, tab)
+    with open(inst, "w") as f:
+        f.write(INSTANCE_V % dict(tab=GEN_FMT))
+        if ex_tree is not None:
+            f.write(INSTANCE_EX_V % dict(tree=coq_tree(tab, ex_tree)))
+    rc, out = fw.coqc(inst, timeout=900)
+    names = fw.theorem_names(inst)
+    if rc != 0:
+        for n_ in names:
+            ctx.obligation("instance theorem " + n_, False)
+        ctx.violation("proof-broken:" + INST_H, "the instance theorems on the regenerated handler table do not check "
+                      "(a handler no longer uses every argument's tokens exactly once and in order, or may fail on a grammar tree); "
+                      "the translation validation of this run found no input on which the property fails",
+                      dict(kind="proof", file=inst, log=out[-3000:], theorems=names), found_input=False)
+    else:
+        res = fw.collect_assumptions(ctx, "EmbossVGen." + INST_H, inst, names)
+        for n_ in names:
+            axs = (res or {}).get(n_, ["<unavailable>"])
+            ctx.obligation("instance theorem " + n_, not axs, axs)
+        prob = fw.audit_file(inst) + fw.audit_file(fv)
+        if prob:
+            ctx.violation("audit", "forbidden vernacular in generated files", dict(kind="audit", problems=prob), found_input=False)
+    # ---- correspondence: model output = format_emboss_parse_tree, character for character ----
+    exe, log = build_fmt_model(os.path.join(ctx.bdir, "extract_h"))
+    ctx.obligation("handler model extracted and driver built", exe is not None)
+    if exe is None:
+        ctx.violation("harness-extraction", "extraction / OCaml build of the handler model failed", dict(kind="harness", log=log[-3000:]), found_input=False)
+        return
+    fcs = [c for c in cases if c["kind"] == "format"]
+    trees = {}
+    pairs = []
+    for c in fcs:
+        if c["text"] not in trees:
+            trees[c["text"]] = impl.parse(c["text"])
+        pairs.append((trees[c["text"]], c["k"]))
+    outs = run_fmt_model(exe, tab, pairs)
+    bad = []
+    for c, o in zip(fcs, outs):
+        ok = (o == c["out"])
+        ctx.count("handler-model:" + ("equal" if ok else "model-fails" if o is None else "differs"))
+        ctx.case(("handler-model", c["text"], c["k"]), nontrivial=c["out"] != c["text"],
+                 sample={"shape": c["shape"], "indent": c["k"], "text": c["text"][:80], "model=python": ok})
+        if not ok:
+            bad.append((c, o))
+    ctx.obligation("correspondence: handler model = format_emboss_parse_tree CHARACTER FOR CHARACTER on %d (text, indent) pairs "
+                   "(%d distinct texts, indent 1..8)" % (len(fcs), len(trees)), not bad)
+    if bad:
+        c, o = min(bad, key=lambda b: len(b[0]["text"]))
+        ctx.violation("formatter-handler-model", "the handler model and format_emboss_parse_tree disagree for indent %d on %r: model %r, python %r"
+                      % (c["k"], c["text"][:120], (o or "<model fails>")[:120], c["out"][:120]),
+                      dict(kind="text", text=c["text"], indent=c["k"], model=o, python=c["out"],
+                           correspondence="Lex.FmtModel.format_text on the regenerated table vs format_emb.format_emboss_parse_tree",
+                           theorems=["format_preserves_tokens", "format_total"]), found_input=False)
+    # a sample inside Coq (extraction is a speed-up, not a premise)
+    small = [(c, trees[c["text"]]) for c in fcs if len(c["text"]) < 700]
+    sample = ctx.rng.sample(small, min(len(small), 60 if ctx.thorough() else 24))
+    header = ("Require Import EmbossV.Lex.Regex EmbossV.Lex.FmtModel EmbossV.Lex.FmtExec.\nRequire Import EmbossVGen.%s.\n" % GEN_FMT)
+    cc = [("(%d%%nat, %s%%N)" % (c["k"], coq_tree(tab, t)), "(Some %s%%N)" % lt.coq_str(c["out"]), c) for c, t in sample]
+    badc = fw.CoqCases(ctx, "fmth", header, "run_format_case fmt_ws fmt_table", "ostr_eqb", "(nat * tree)", "(option str)",
+                       shard=max(3, len(cc) // 8 + 1), timeout=1500).run(cc)
+    ctx.obligation("handler model inside Coq (vm_compute) = format_emboss_parse_tree on %d sampled (text, indent) pairs" % len(cc), not badc)
+    if badc:
+        c = cc[badc[0][0]][2]
+        ctx.violation("formatter-handler-model", "vm_compute of the handler model differs from format_emboss_parse_tree for indent %d on %r"
+                      % (c["k"], c["text"][:120]),
+                      dict(kind="text", text=c["text"], indent=c["k"], model_outputs=badc[0][1][:2000],
+                           correspondence="Lex.FmtModel.format_text (vm_compute) vs format_emb.format_emboss_parse_tree"), found_input=False)
+
+
+def real_expression_subtree(impl, tab):
+    """the largest `expression` subtree with at most 60 nodes of testdata/condition.emb (or of any corpus file)"""
+    from compiler.util import parser_types
+    best = None
+    for name, text in lg.corpus_files(fw.REPO):
+        tree = impl.parse(text)
+        if tree is None:
+            continue
+        stack = [tree]
+        while stack:
+            n = stack.pop()
+            if isinstance(n, parser_types.Token):
+                continue
+            stack.extend(n.children)
+            if n.production.lhs == "expression":
+                size, st2 = 0, [n]
+                while st2:
+                    m = st2.pop()
+                    size += 1
+                    if not isinstance(m, parser_types.Token):
+                        st2.extend(m.children)
+                if size <= 60 and (best is None or size > best[0]):
+                    best = (size, n)
+        if best is not None and best[0] >= 40:
+            break
+    return best[1] if best else None
+
+
+INSTANCE_EX_V = """
+(* the string fragment: a real `expression` subtree of the corpus is in it, hence cannot make the formatter fail *)
+Definition real_expression : tree := %(tree)s%%N.
+Theorem inst_real_expression_in_string_fragment : str_tree fmt_table real_expression = true.
+Proof. vm_compute. reflexivity. Qed.
+Theorem inst_real_expression_total : forall iw, exists g, format fmt_ws iw fmt_table real_expression = Some (VStr g).
+Proof. exact (fun iw => format_total_strings_partial fmt_ws iw fmt_table real_expression inst_real_expression_in_string_fragment). Qed.
+Theorem inst_string_fragment_size : 150 <= length (filter str_handler fmt_table).
+Proof. apply PeanoNat.Nat.leb_le. vm_compute. reflexivity. Qed.
+"""
+
+
+INSTANCE_V = """(* GENERATED by harness/props/c11.py: the handler-level theorems on the table regenerated from format_emb.py *)
+From Coq Require Import NArith List.
+Import ListNotations.
+Require Import EmbossV.Lex.Regex EmbossV.Lex.FmtModel EmbossV.Lex.Properties_C11.
+Require Import EmbossVGen.%(tab)s.
+
+(* every handler uses the tokens of each of its arguments exactly once and in order, except Indent / Dedent / newline *)
+Theorem inst_table_toks_ok : table_toks_ok fmt_table = true.
+Proof. vm_compute. reflexivity. Qed.
+
+Theorem inst_droppable_terminal : droppable_terminal fmt_table = true.
+Proof. vm_compute. reflexivity. Qed.
+
+(* format_emb's handlers preserve the token sequence of EVERY parse tree on which they do not raise *)
+Theorem inst_format_preserves_tokens : forall iw t v,
+  format fmt_ws iw fmt_table t = Some v -> vtoks fmt_ws v = tree_toks fmt_ws fmt_table t.
+Proof. exact (fun iw => format_preserves_tokens fmt_ws iw fmt_table inst_table_toks_ok). Qed.
+
+Theorem inst_format_preserves_leaves : forall iw t v,
+  tree_wf fmt_table t -> (forall s, root_sym fmt_table t = Some s -> droppable s = false) ->
+  format fmt_ws iw fmt_table t = Some v -> vtoks fmt_ws v = leaf_toks fmt_ws t.
+Proof. exact (fun iw => format_preserves_leaves fmt_ws iw fmt_table inst_table_toks_ok inst_droppable_terminal). Qed.
+"""
+
+
 def audit_closure(ctx):
     """Audit (forbidden vernacular) of the .v files this check depends on: theories/Lex and theories/Lib.
     (fw.Ctx.audit covers the whole tree, including other properties' work in progress.)"""
@@ -522,13 +818,15 @@ def run(ctx):
                 "several files, rejected inputs, launcher), compared with the ORIGINAL file text; token-text sweep: string constants / docs / comments "
                 "with interior blank runs, tabs, escapes, NBSP, non-ASCII at every scope; "
                 "output again is the identity; Python's self check and its model agree.  Plus perturbed (formatted, original) pairs for "
-                "the self-check model.  Non-trivial = the formatted text differs from the input; distinct by (text, indent)")
+                "the self-check model.  Handler-level model: every (text, indent) pair above is also formatted by the extracted Gallina model on the "
+                "regenerated handler table and compared with format_emboss_parse_tree character for character.  "
+                "Non-trivial = the formatted text differs from the input; distinct by (text, indent)")
     ctx.trusted = ["Coq 8.16.1 kernel, vm_compute", "extraction (ExtrOcamlBasic) + OCaml driver (sampled against vm_compute)",
-                   "harness/lex_tables.py", "harness/props/c11.py", "parser.parse_module as the oracle for 'parseable'"]
-    ctx.assumptions = ["the formatter's per-production handlers and _columnize are not modelled: the universal statement is validated per produced output, not proved (partial)",
+                   "harness/lex_tables.py", "harness/fmt_x.py", "harness/props/c11.py", "parser.parse_module as the oracle for 'parseable'"]
+    ctx.assumptions = ["the handler-level model (Lex/FmtModel.v + regenerated table) stands for format_emb.py: tied by the character-for-character correspondence of this run; format_preserves_tokens is conditional on the formatter not raising (totality proved for the string fragment only) and speaks about the pieces of the rendered text, whose re-tokenization is validated per produced output (partial)",
                        "the C10 tokenizer model stands for tokenizer.tokenize (tied by the C10 correspondence; re-checked here on every text used)"]
     audit_closure(ctx)
-    thm_ok = ctx.check_theorems("EmbossV.Lex.Properties_C11", "Lex/Properties_C11.v", expect_min=12)
+    thm_ok = ctx.check_theorems("EmbossV.Lex.Properties_C11", "Lex/Properties_C11.v", expect_min=21)
 
     os.makedirs(fw.GEN, exist_ok=True)
     try:
@@ -740,6 +1038,13 @@ def run(ctx):
             f2 = r.choice(fmt_cases)["out"]
         ctx.count("shape:selfcheck-perturbed")
         cases.append(dict(text=c["text"], k=c["k"], out=f2, shape="selfcheck-perturbed", py_sanity=impl.sanity(f2, c["text"]), kind="pair"))
+
+    # ---- the handler-level model ------------------------------------------------------------------
+    try:
+        handler_model_part(ctx, impl, cases)
+    except fw.CoqEvalError as ex:
+        ctx.obligation("handler model evaluated inside Coq", False)
+        ctx.violation("harness-coq-eval", "evaluating the handler model inside Coq failed: %s" % str(ex)[-1500:], dict(kind="harness"), found_input=False)
 
     # ---- model side ----------------------------------------------------------------------------
     exe, log = build_extracted(ctx)
